@@ -3,6 +3,7 @@
 mod common;
 mod c02;
 mod c05;
+mod c07;
 mod httpgen;
 mod tables;
 
@@ -10,6 +11,7 @@ fn exec(prop: &str, f: &[String]) -> Option<String> {
     match prop {
         "C02" => c02::exec(f),
         "C05" => c05::exec(f),
+        "C07" => c07::exec(f),
         _ => None,
     }
 }
@@ -51,6 +53,7 @@ fn main() {
     match args[1].as_str() {
         "C02" => c02::gen(&mut out, thorough, seed),
         "C05" => c05::gen(&mut out, thorough, seed),
+        "C07" => c07::gen(&mut out, thorough, seed),
         other => {
             eprintln!("unknown property {}", other);
             std::process::exit(2);
